@@ -373,7 +373,9 @@ def run_request(obs):
 
 
 def parse_run_answer(ans):
-    out = {'ne': [], 'spec': [], 'bad': False}
+    """NE findings of a scene in which the driver found a float near-tie (a decision the implementation takes in
+    binary64 and the model in exact rationals, too close to call) are moved to 'near_tie' and not counted."""
+    out = {'ne': [], 'spec': [], 'bad': False, 'near_tie': []}
     if not ans.startswith('RUN'):
         out['bad'] = True
         return out
@@ -388,8 +390,13 @@ def parse_run_answer(ans):
             out['ne'].append(f[3:])
         elif f.startswith('SPEC '):
             out['spec'].append(f[5:])
+        elif f.startswith('NOTE float-near-tie'):
+            out['near_tie'].append(f[20:])
         else:
             out['ne'].append('unparsed:' + f)
+    if out['near_tie']:
+        out['near_tie'] += out['ne']
+        out['ne'] = []
     return out
 
 
